@@ -215,6 +215,11 @@ class PostProcessor:
             # and we lack information about them.
             if name not in self.glyphSet:
                 continue
+            if name == ".notdef":
+                # glyph 0 must keep its name (the CFF charset requires it), whatever
+                # public.postscriptNames says; no other glyph may take it either
+                seen[name] = 1
+                continue
             prod_name = self._build_production_name(self.glyphSet[name])
 
             # strip invalid characters not allowed in postscript glyph names
